@@ -5,6 +5,7 @@
 From Coq Require Import Strings.String Strings.Byte.
 From Coq Require Import List NArith.
 From Goit Require Import Bytes Tree Index IndexFacts DiffFacts TreeFacts.
+From Goit Require Import Obj World Repo ExactFacts.
 Import ListNotations.
 
 (* a directory argument selects exactly the tracked paths beneath "<name>/",
@@ -40,8 +41,38 @@ Theorem C09_remove_entry_exact : forall es p es',
   Canonical es' /\ ~ In p (paths es') /\ (forall e, e_path e <> p -> (In e es' <-> In e es)).
 Proof. exact idx_delete_spec. Qed.
 
+
+(* ---------- Part 2: the commands ---------- *)
+(* restore <paths>: every target (a named tracked file, or every tracked path
+   beneath a named directory, whether or not it exists on disk) ends up
+   byte-identical to its staged blob; no other file, nothing in the staging
+   area, no object and no ref changes; only files that are targets are written *)
+Theorem C09_restore_worktree_spec : forall c args w out w' tr,
+  run_m (cmd_restore c false args) w = (Ok out, w', tr) ->
+  restore_wd_post w (wd_targets w args) w' /\ w' = apply_effects tr w /\
+  Forall (fun e => match e with EWriteFile q _ => In q (wd_targets w args) | EMkdirAll _ => True | _ => False end) tr.
+Proof. exact cmd_restore_wd_spec. Qed.
+
+(* a path known to neither is refused and nothing is written *)
+Theorem C09_restore_unknown_refused : forall c w args a,
+  In a args -> staged w a = None -> entries_by_dir (idx_of w) a = [] ->
+  runs (cmd_restore c false args) w Err [] /\ run_m (cmd_restore c false args) w = (Err, w, []).
+Proof. exact cmd_restore_wd_unknown. Qed.
+
+(* restore --staged <paths>: the staged entry of every target becomes its entry
+   in the HEAD snapshot (removed if HEAD has none, re-created if it had been
+   unstaged); every other entry and the whole work tree are unchanged *)
+Theorem C09_restore_staged_spec : forall c args w out w' tr,
+  IndexFacts.Canonical (idx_of w) -> run_m (cmd_restore c true args) w = (Ok out, w', tr) ->
+  exists ns, head_nodes c w = Some ns /\ restore_idx_post w ns (idx_targets w ns args) w' /\
+             w' = apply_effects tr w /\ Forall (fun e => is_idx e = true) tr.
+Proof. exact cmd_restore_idx_spec. Qed.
+
 Print Assumptions C09_dir_selects_exactly.
 Print Assumptions C09_under_dir_is_a_prefix_relation.
 Print Assumptions C09_head_lookup_exact.
 Print Assumptions C09_set_entry_exact.
 Print Assumptions C09_remove_entry_exact.
+Print Assumptions C09_restore_worktree_spec.
+Print Assumptions C09_restore_unknown_refused.
+Print Assumptions C09_restore_staged_spec.
